@@ -51,14 +51,8 @@ def main():
                 print("%-48s tests:%s %s" % (name, "pass" if (t.returncode == 0 or " 1822 passed" in t.stdout) else "FAIL", t.stdout.strip().splitlines()[-1][:100]), flush=True)
             for prop in props:
                 n += 1
-                evp = os.path.join(ROOT, "evidence", "%s.json" % prop)
-                saved = open(evp).read() if os.path.exists(evp) else None
                 t0 = time.time()
                 c = subprocess.run([os.path.join(ROOT, "check"), prop, tier], cwd=ROOT, env=dict(os.environ, VERIF_REPO=d), capture_output=True, text=True)
-                if saved is not None:
-                    open(evp, "w").write(saved)
-                elif os.path.exists(evp):
-                    os.remove(evp)
                 status = {0: "quiet", 1: "FALSE-ALARM", 2: "INCONCLUSIVE"}.get(c.returncode, "rc%d" % c.returncode)
                 mech = [l.split("mechanism=")[1].split()[0] for l in c.stdout.splitlines() if l.startswith("VIOLATION") and "mechanism=" in l]
                 print("%-48s %-4s %-12s %6.1fs %s" % (name, prop, status, time.time() - t0, ",".join(sorted(set(mech)))[:120]), flush=True)
